@@ -7,15 +7,36 @@ LEVEL = "other"
 DEDUCTIVE = [{"module": "rnapolis.common", "sidecar": "contracts.common_c",
               "targets": ["BpSeq.sequence", "BpSeq.__stems_entries", "BpSeq.__regions", "lemma:strands_apart",
                           "DotBracket.__post_init__", "DotBracket.__post_init__@painted", "DotBracket.from_string",
-                          "DotBracket.from_string@painted", "BpSeq.__make_dot_bracket", "BpSeq.fcfs"]}]
+                          "DotBracket.from_string@painted", "BpSeq.__make_dot_bracket", "BpSeq.fcfs"]},
+             # BPSEQ / dot-bracket TEXT layer (observe_at BpSeq.from_string / __str__; DotBracket.from_file) over an abstract text model
+             {"module": "rnapolis.common", "sidecar": "contracts.common_text_c",
+              "opts": {"z3_probe_ms": 400, "cvc5_probe_s": 6},  # stage order: short z3 attempt, cvc5, then the usual z3 stages
+              "targets": ["BpSeq.__post_init__", "BpSeq.from_string", "BpSeq.__str__", "lemma:cnt_all_kept", "lemma:bpseq_text_round_trip",
+                          "BpSeq.from_file", "DotBracket.from_string", "DotBracket.from_file"]}]
 TRUSTED = ["z3 5.1.0 / cvc5 1.0.3", "pyvc encoding of Python semantics (DESIGN 2.3)", "CPython 3.12",
-           "Lean 4.33.0 + Mathlib v4.33.0 (lean/Definitional.lean, plain `lean`, standard axioms only)"]
+           "Lean 4.33.0 + Mathlib v4.33.0 (lean/Definitional.lean, plain `lean`, standard axioms only)",
+           "text layer (contracts/common_text_c.py) externals, each an UNINTERPRETED deterministic function of its argument about which the "
+           "engine assumes nothing but a length >= 0 for the lists: str.splitlines() (splitlines.n / .at), str.strip() (py_strip), "
+           "str.rstrip() (py_rstrip), str.split() without arguments (wsplit.n / .at), '\\n'.join(list of str) (py_join of length and "
+           "elements; the list joined last is kept under the ghost name JOINED), open(path) -> file object (may raise OSError) whose read() "
+           "is file_text(path) and whose readlines() is file_lines(path), file __enter__ / __exit__; modelled exactly, not abstractly: "
+           "'<constant template>'.format(args) for plain `{}` fields and int / str arguments = the literal pieces and str(arg) "
+           "concatenated; int(str) is the engine's own model (py_int, ValueError unless an optionally signed decimal with optional "
+           "surrounding whitespace / single underscores); logging.warning is dropped"]
 EXTRA_KIND = "Lean 4 + Mathlib: existence and uniqueness of the definitional functions FC / levels30 (lean/Definitional.lean, ~5 s; both tiers)"
 ASSUMPTIONS = [
     "Entry.sequence is one character (field declared `char` in the sidecar): BPSEQ sequences are one letter per entry",
     "FC / taken (first-come-first-served level function) and levels30 ('needs at most 30 levels', the property's quantifier) are introduced by characteristic properties (definitional lemmas FC_definition / levels30_definition of contracts/common_c.py) that the SMT engine assumes; that functions with exactly these properties EXIST for every stem list (the axioms are consistent) and are UNIQUE on the stems 0..len(R)-1 (least level not used by an earlier crossing stem, by strong recursion: the axiom is a definition) is proved in Lean 4 + Mathlib - lean/Definitional.lean: FC_definition_consistent, FC_definition_unique, FC_is_fc, levels30_definition_consistent (model in which levels30(self) holds exactly when all FCFS levels are < 30: the precondition of BpSeq.fcfs is not vacuous). Still a reading (lean/README.md, section Definitional.lean): that the Lean predicate FCdef is FC_def(R) clause by clause, and the discipline 'FC_definition is instantiated for ONE stem list per verification condition' (FC / taken carry no argument R; two different stem lists can be contradictory: theorem FC_definition_one_R_per_context) - BpSeq.fcfs instantiates it once, for its own `regions`",
     "composition across calls (the stems seen by fcfs are the stems seen by __regions) relies on cached_property: one evaluation per object",
     "the MILP encoder (dot_bracket / convert_to_dot_bracket) and all_dot_brackets reach __make_dot_bracket through their own contracts (C13/C02, C16); where those are not proved the members are covered by the bounded part only",
+    "text layer (contracts/common_text_c.py): Entry.sequence is a general str there (whatever the second column holds), not one character",
+    "text layer, definitional lemmas cnt_definition / cnt_step: cnt(t, k) = number of kept lines (non-empty after strip(), exactly three split() fields) among the first k lines of t, by primitive recursion on k (cnt(t, 0) = 0, cnt(t, k + 1) = cnt(t, k) + [line k kept]) - assumed by the SMT engine as the definition of the counting function in which 'the entries are the kept lines in file order' is stated (entry of kept line k sits at position cnt(t, k))",
+    "text layer, ROUND TRIP ONLY (lemma bpseq_text_round_trip; the contracts of from_string / __str__ / from_file use none of them) - assumed facts about Python's str methods, with plain(s) := 's is not empty and holds no whitespace character (str.isspace)', an uninterpreted predicate that is the DOMAIN of the round-trip clause (every entry's symbol is plain): "
+    "T1_join_splitlines ('\\n'.join(L).splitlines() == L when every L[k] is three plain texts joined by single blanks), "
+    "T2_strip_three (such a line is its own strip()), T3_split_three (its split() is the three texts), "
+    "T4_int_text_plain (str(i) of an int is plain), T5_int_of_int_text (int() accepts str(i) and int(str(i)) == i, in the engine's model of int(str) and str(int))",
+    "text layer: assumed callee contract DotBracket.__post_init__ (frame only: writes self.pairs, raises nothing but IndexError) - proved in contracts/common_c.py (targets above) under the one-character-list representation of the two texts; BpSeq.__post_init__ (frame only) is a target of the text sidecar itself",
+    "text layer: the file's content does not change during a call (file_text / file_lines are functions of the path); nothing is assumed about how read() and readlines() of one file relate",
 ]
 EXPLANATION = (
     "Deductive (all inputs, no bound on N, on the number of stems or on nesting): BpSeq.__stems_entries returns exactly the maximal runs of "
@@ -28,7 +49,23 @@ EXPLANATION = (
     "its result is lossless. The decoder's general contract (any text): pairs are distinct ordered positions, IndexError only on unbalanced text. "
     "Lemma strands_apart (strands of different stems of a valid structure are disjoint intervals) is proved by SMT with explicit witnesses. "
     "Bounded (stand-in, not counted as proved): optimal / all-dot-brackets members end to end, the converse direction (dot-bracket -> BPSEQ -> dot-bracket) "
-    "and BpSeq.from_string/__str__ on enumerated pairings and random knotted structures.")
+    "and BpSeq.from_string/__str__ on enumerated pairings and random knotted structures."
+    " TEXT LAYER, deductive (sidecar contracts/common_text_c.py; the str methods are uninterpreted functions of an abstract text, see TRUSTED): "
+    "BpSeq.from_string, for EVERY text: (entries-are-the-three-column-lines-in-file-order) the entries are exactly the kept lines - stripped, non-empty, exactly "
+    "three whitespace-separated fields, whatever the fields contain ('?', '-', '.', lower case ...) - in file order, entry = (int(field 0), field 1, int(field 2)), "
+    "every other line is skipped (existence-free form: the entry of kept line k sits at position cnt(t, k), the number of kept lines before it, and there are "
+    "cnt(t, number of lines) entries); (raises.ValueError only-when / whenever) ValueError exactly when some kept line has a first or third field that int() rejects; "
+    "new objects only. BpSeq.__str__: (one-line-per-entry-joined-by-newlines) the result is '\\n'.join of one line str(i) + ' ' + c + ' ' + str(j) per entry, in order. "
+    "Lemma bpseq_text_round_trip (SMT, from T1..T5 of ASSUMPTIONS and lemma cnt_all_kept, induction): for entries whose symbols are non-empty and whitespace-free, "
+    "with t as __str__'s postcondition describes it, from_string(t) does not raise and every entry list its postcondition describes has exactly b's entries "
+    "(index, symbol, partner; same number, same order) - from_string(str(b)) has b's entries. BpSeq.from_file: from_string's clauses about the text read from the path. "
+    "DotBracket.from_string (str representation): holds exactly the two texts, ValueError exactly when the lengths differ. DotBracket.from_file: a 2-line file is "
+    "(sequence, structure), a 3-line file (header, sequence, structure) with the header ignored, lines rstrip()ped, RuntimeError exactly for every other line count, "
+    "ValueError exactly when the two texts' lengths differ. "
+    "NOT ESTABLISHED (refused by the engine, not approximated; bounded oracle `multi-strand text` only): MultiStrandDotBracket.from_string - one re.finditer over a "
+    "regular expression with lazy quantifiers / optional groups plus generator expressions over the matches ('external call re.finditer has no assumed contract'; "
+    "the stub contract in the sidecar records what it produces per strand); there is no from_multiline_string in this version of the library. A change of "
+    "BpSeq.from_string that goes through `re` (e.g. a regular expression instead of split()) is likewise reported NOT-ESTABLISHED, never judged.")
 
 
 def deductive_extra(tier, seed):
